@@ -32,6 +32,7 @@ func init() {
 			"DOM built from the standard decoder: C = nodes selected with every trailing predicate of the last step removed; O = outermost members of C; " +
 			"expected = members of O selected by the full xpath, in document order, each with its full subtree. Compared with what idr's stream readers " +
 			"deliver (with and without Release between Reads) and, end-to-end, with Transform.Read under a copy schema. " +
+			"JSON property names may look like paths of other names (\"b/c\" next to the nesting b -> c); predicate literals may contain the other quote character or brackets. " +
 			"distinct = digest(document, xpath); non-trivial = |C| >= 2 and a candidate was nested or rejected.",
 		Assumptions: []string{
 			"antchfx/xpath over a harness-built DOM (xmlquery nodes) evaluates the whole-document selection",
